@@ -194,6 +194,12 @@ def main(run):
         want = ["expr"] if kind != "FN" else ["ufl_type"]
         probe[kind] = (a["outputs"] == want, b["outputs"] == want)
         probe_jobs[kind] = ((ja, a["outputs"]), (jb, b["outputs"]), want)
+        if pol[kind] is not None and not all(pol[kind]) and all(probe[kind]):
+            # the recognised statement is not where staleness is handled (the probes behave): let the behaviour
+            # decide; the histories below are then compared with the specification itself
+            run.extra.setdefault("note", []).append(
+                f"{kind}: source shape suggests policy {pol[kind]} but both probes dispatch correctly; using (True, True)")
+            pol[kind] = (True, True)
         if pol[kind] is None:
             # policy that explains the probes: late registration fails -> snapshot; only stale cache fails -> no validation
             pol[kind] = (probe[kind][0] or not probe[kind][1], probe[kind][1])
@@ -261,11 +267,23 @@ def main(run):
                        "error": res.err[-1000:]}, False)
 
     # ---- T3: random histories on the real code vs the model
-    nh = 20 if run.tier == "quick" else 100
+    nh = 24 if run.tier == "quick" else 100
     base_names = [r["cls"].__name__ for r in rows]
     jobs = [gen_history(random.Random(run.seed * 65537 + k), k, base_names) for k in range(nh)]
     # structured histories first: two DISTINCT algorithm classes with the same (module, qualified) name, one used
     # before and one first used after a registration; and different handler sets under one name
+    # chains of late registrations (B derives from late A) with a handler for the intermediate base only, the
+    # algorithm class used before / between / after the registrations
+    for j, kind in enumerate(("MF", "TR", "MF", "TR")):
+        rng = random.Random(run.seed * 1543 + j)
+        a, b_, c_ = f"ChainA{j}", f"ChainB{j}", f"ChainC{j}"
+        hs = sorted({"expr", "operator", camel2underscore(a)} | ({camel2underscore(c_)} if rng.random() < 0.5 else set()))
+        regs = [["reg", a, rng.choice(["Operator", "Sum", "Grad"]), True], ["reg", b_, a, True], ["reg", c_, b_, True]]
+        cut = 0 if j < 2 else rng.randint(1, 2)          # where the first use happens
+        ops = regs[:cut] + [["inst", 0]] + regs[cut:]
+        ops += [["apply", 0, b_], ["apply", 1, b_], ["apply", 0, c_], ["apply", 1, c_], ["apply", 0, a]]
+        jobs[4 + j] = {"algs": [{"name": "Early", "kind": kind, "handlers": hs},
+                                {"name": "Late", "kind": kind, "handlers": hs}], "ops": ops}
     for j, kind in enumerate(("MF", "TR", "MF", "TR")):
         rng = random.Random(run.seed * 977 + j)
         h1 = sorted({"expr", rng.choice(["sum", "operator", "terminal"])})
@@ -278,7 +296,7 @@ def main(run):
                             {"name": "Same", "kind": kind, "handlers": h2 if j < 2 else h2[:-1]}], "ops": ops}
     with cf.ThreadPoolExecutor(max_workers=vlib.NCPU) as ex:
         results = list(ex.map(run_history, jobs))
-    nsh = 4 if run.tier == "quick" else vlib.NCPU
+    nsh = 2 if run.tier == "quick" else vlib.NCPU
     files = []
     for s in range(nsh):
         Ls = ["(* GENERATED: histories run on the real code (fresh subprocess each) vs the model *)",
@@ -335,6 +353,68 @@ def main(run):
     for fl in broken - {f"hist_{k}" for k in range(nh)}:
         run.violation({"broken_obligation": fl, "what": "generated history file does not compile"}, False)
     run.extra["histories_deviating_from_spec_as_the_model_predicts"] = deviating
+
+    # ---- public algorithms / real algorithm classes and late-registered subtypes (fresh subprocess per scenario):
+    #      the outcome on an instance of a type registered late must not depend on use-before-registration,
+    #      and must not be an IndexError/KeyError (every registered type is dispatched to a handler)
+    sites = L.typecode_table_sites()
+    drivers = ["fn:ufl.algorithms.apply_geometry_lowering.apply_geometry_lowering", "glp:Jacobian", "glp:FacetNormal",
+               "fn:ufl.algorithms.apply_algebra_lowering.apply_algebra_lowering",
+               "fn:ufl.algorithms.apply_derivatives.apply_derivatives",
+               "fn:ufl.algorithms.remove_complex_nodes.remove_complex_nodes",
+               "fn:ufl.algorithms.estimate_degrees.estimate_total_polynomial_degree",
+               "fn:ufl.algorithms.apply_function_pullbacks.apply_function_pullbacks",
+               "fn:ufl.algorithms.expand_indices.expand_indices", "fn:ufl.algorithms.renumbering.renumber_indices",
+               "fn:ufl.algorithms.transformer.strip_variables", "sort:sorted_expr"]
+    for a in L.algorithm_classes():
+        try:
+            a()      # default-constructible (checked here, in the harness process; the scenarios run elsewhere)
+        except Exception:      # noqa: BLE001
+            continue
+        drivers.append(("mapdag:" if issubclass(a, MultiFunction) else "visit:") + a.__module__ + "." + a.__name__)
+    drv_modules = {d.split(":", 1)[1].rsplit(".", 1)[0].replace("ufl.", "", 1).replace(".", "/") + ".py" for d in drivers
+                   if d.startswith(("fn:", "mapdag:", "visit:"))} | {"sorting.py"}
+    core = {"core/expr.py", "corealg/multifunction.py", "corealg/map_dag.py", "corealg/traversal.py",
+            "algorithms/transformer.py"}
+    run.extra["typecode_table_sites"] = sorted({f"{f}:{fn}" for f, fn, _ln, _w in sites})
+    run.extra["typecode_table_sites_without_driver"] = sorted({f"{f}:{fn}" for f, fn, _ln, _w in sites
+                                                               if f not in drv_modules and f not in core})
+    from ufl.geometry import GeometricQuantity
+    geo = sorted(r["cls"].__name__ for r in rows if issubclass(r["cls"], GeometricQuantity) and not r["abstract"])
+    opsn = ["Sum", "Product", "Division", "Sin", "Abs", "Power", "Grad", "Div", "Sqrt", "Conj", "Inner"]
+    prng = random.Random(run.seed * 31337 + 5)
+    parents = prng.sample(geo, 3 if run.tier == "quick" else 16) + prng.sample(opsn, 1 if run.tier == "quick" else 5)
+    pjobs = [{"mode": "pub", "parent": p, "use_before": ub, "chain": 1 + (i % 2), "drivers": drivers}
+             for i, p in enumerate(parents) for ub in (True, False)]
+    with cf.ThreadPoolExecutor(max_workers=vlib.NCPU) as ex:
+        pres = list(ex.map(run_history, pjobs))
+    npub = 0
+    for i in range(0, len(pjobs), 2):
+        jb, rb, ra = pjobs[i], pres[i], pres[i + 1]
+        if "error" in rb or "error" in ra:
+            raise RuntimeError(f"public-algorithm scenario could not be run: {rb.get('error') or ra.get('error')}")
+        if "skip" in rb or "skip" in ra:
+            continue
+        for d in rb["drivers"]:
+            npub += 1
+            run.count_case(("pub", jb["parent"], jb["chain"], d))
+            ob, oa = rb["new"].get(d), ra["new"].get(d)
+            stale = [o for o in (ob, oa) if o in ("EXC:IndexError", "EXC:KeyError")
+                     and rb["old_after"].get(d, "").startswith("ok")]
+            if (ob != oa or stale) and len(run.violations) < 6:
+                run.violation({"what": "outcome of an algorithm on an instance of a type registered late depends on whether "
+                                       "the algorithm was used before the registration / the new type is not dispatched",
+                               "algorithm": d, "new_type": f"{jb['chain']}-level late subclass of {jb['parent']}",
+                               "steps_A": [f"{d} on an instance of {jb['parent']}", "register the subclass(es) with @ufl_type",
+                                           f"{d} on an instance of the new subclass"],
+                               "outcome_A(used before)": ob, "steps_B": "the same without the first step",
+                               "outcome_B(first used after)": oa,
+                               "reproduce": "echo '" + json.dumps({k: v for k, v in jb.items() if k != "drivers"}
+                                                                  | {"drivers": [d]}) + f"' | PYTHONPATH=$UFL_REPO:"
+                                            f"/verif/py /venv/bin/python {RUNNER}"}, True)
+    run.extra["public_algorithm_scenarios"] = npub
+    if pres and "drivers" in pres[0]:
+        run.extra["public_algorithm_drivers"] = len(pres[0]["drivers"])
 
     # ---- known finding: replay the recorded witness on the real code
     for kf in known:
